@@ -74,7 +74,11 @@ fn make_event(m: &sim::Model, inv: &crate::maps::Inv, rng: &mut Rng, kind: u64, 
     for (w, s) in &wires {
         banks.push(event::wire_bank(inv, *w, s.clone()));
     }
-    banks.extend(event::pad_banks(inv, &pads, 700));
+    if idx % 2 == 0 {
+        banks.extend(event::pad_banks(inv, &pads, 700));
+    } else {
+        banks.extend(event::pad_banks_varied(inv, &pads, 700, rng));
+    }
     banks.push(event::trg_bank(1000 + idx as u32));
     let what = match kind {
         0 | 1 | 2 => "valid multi-track event",
@@ -220,6 +224,27 @@ fn make_event(m: &sim::Model, inv: &crate::maps::Inv, rng: &mut Rng, kind: u64, 
             }
             "two PWB messages for one chip under different chunk labels"
         }
+        18 => {
+            // a complete message (>= 4 chunks, ids 0..n-1) in which an intermediate chunk also carries the end-of-message flag
+            let mut done = false;
+            let names: Vec<(String, u8)> = banks.iter().filter(|b| b.0.starts_with("PC")).map(|b| (b.0.clone(), b.1[10])).collect();
+            for (nm, chip) in names {
+                let idxs: Vec<usize> = (0..banks.len()).filter(|k| banks[*k].0 == nm && banks[*k].1[10] == chip).collect();
+                if idxs.len() >= 4 {
+                    let want = 1 + (idx as u16 % (idxs.len() as u16 - 2));
+                    let k = idxs.iter().copied().find(|k| u16::from_le_bytes([banks[*k].1[12], banks[*k].1[13]]) == want).unwrap();
+                    let c = super::must_chunk(&banks[k].1);
+                    let twin = crate::enc::Chunk { device_id: c.board_id().device_id(), packet_sequence: 3, channel_sequence: 3, channel_id: chip, flags: 1, chunk_id: want, payload: c.payload().to_vec() };
+                    banks[k].1 = twin.encode();
+                    done = true;
+                    break;
+                }
+            }
+            if !done {
+                banks.retain(|b| b.0 != "ATAT");
+            }
+            "PWB message with the end-of-message flag on an intermediate chunk too"
+        }
         17 => {
             // as 16, but the second message is short: every waveform ends before the run's delay, so it leaves no signal
             let mut done = false;
@@ -278,7 +303,7 @@ fn run(ctx: &mut Ctx) {
         }
         ctx.cur_case = i;
         let mut rng = ctx.rng_for("events", i);
-        let (banks, what) = make_event(&m, &inv, &mut rng, i % 18, i);
+        let (banks, what) = make_event(&m, &inv, &mut rng, i % 19, i);
         let groups = {
             let mut g: Vec<&str> = banks.iter().filter(|b| b.0.starts_with("PC")).map(|b| &b.0[..]).collect();
             g.sort();
